@@ -1,4 +1,5 @@
 // CHILD-OF: src/contract.rs
+// ROBUST: names no storage key/value type of the example app; state is built by the constructor
 // ENCODES: Example::{execute, send, gateway, gas_service, __constructor}, AxelarExecutableInterface::validate_message (default method), event::executed; a minimal app (MiniApp, below) using the helper as documented
 // STUBS: axelar_gateway AxelarGatewayMessagingClient::{validate_message, call_contract} -> GatewaySpec (one symbolic approval record; proven against the real gateway by c02_validate_message_step / c13_call_contract_*); AxelarGasServiceClient::pay_gas -> recorder (GasServiceSpec, proven by c14_pay_gas)
 // C16 (apps act only on approved messages, once), C07 (example send).
@@ -95,10 +96,8 @@ fn delivery_with(payload: Bytes, other_payload: Bytes) -> Delivery {
         G_CALLS = 0;
     }
     let conforming = status == 1 && a_contract == app() && a_chain == chain && a_id == id && a_src == src && a_ph == ph;
-    model::with_contract(&app(), || {
-        env.storage().instance().set(&DataKey::Gateway, &gateway_addr());
-        env.storage().instance().set(&DataKey::GasService, &gas_addr());
-    });
+    // state is built by the constructor (no storage key is named)
+    model::with_contract(&app(), || Example::__constructor(env.clone(), gateway_addr(), gas_addr()));
     Delivery { env, chain, id, src, payload, conforming }
 }
 fn check_effect(d: &Delivery) {
@@ -126,7 +125,7 @@ fn c16_example_execute() {
 pub struct MiniApp;
 impl AxelarExecutableInterface for MiniApp {
     fn gateway(env: &Env) -> Address {
-        env.storage().instance().get(&DataKey::Gateway).unwrap()
+        <Example as AxelarExecutableInterface>::gateway(env)
     }
     fn execute(env: Env, source_chain: String, message_id: String, source_address: String, payload: Bytes) {
         if Self::validate_message(&env, &source_chain, &message_id, &source_address, &payload).is_err() {
@@ -228,7 +227,7 @@ fn c16_example_execute_abstract_payload() {
     kani::assert(whole == other, "VERIF:C16:an approval of other bytes (a prefix, a cut, any other string) is not an approval of the payload");
     kani::cover!(true, "VERIF:reach:long delivery executed");
 }
-// HARNESS props=C16 tier=quick profile=app_big shape="payload of 1030 symbolic bytes delivered; the approval record is for its 1024-byte prefix (or, by the symbolic status/fields, for nothing)"
+// HARNESS props=C16 tier=thorough profile=app_big shape="payload of 1030 symbolic bytes delivered; the approval record is for its 1024-byte prefix (or, by the symbolic status/fields, for nothing)"
 #[kani::proof]
 #[kani::stub(axelar_gateway::messaging_interface::xc_AxelarGatewayMessagingClient_validate_message, spec_validate_message)]
 #[kani::stub(axelar_gateway::messaging_interface::xc_AxelarGatewayMessagingClient_is_message_approved, spec_is_message_approved)]
